@@ -50,7 +50,9 @@ def _meta_of(segno, code):
                'designator': q.designator, 'mode': q.mode, 'symbol_size': q.symbol_size(),
                'default_border_size': q.default_border_size,
                'symbol_size_3_1': q.symbol_size(scale=3, border=1), 'symbol_size_2_0': q.symbol_size(2, 0),
-               'symbol_size_2.5_default': q.symbol_size(scale=2.5)}
+               'symbol_size_2.5_default': q.symbol_size(scale=2.5),
+               'symbol_size_2.01_default': q.symbol_size(scale=2.01), 'symbol_size_8.19_0': q.symbol_size(scale=8.19, border=0),
+               'symbol_size_0.333_3': q.symbol_size(scale=0.333, border=3)}
 
 
 _CLONE_KEYS = ('version', 'error', 'mask', 'is_micro', 'designator', 'mode', 'symbol_size', 'default_border_size')
